@@ -1,60 +1,191 @@
-import I18n.Lemmas.CheckPlurals
-import I18n.Generated.PluralGrammar
-import I18n.Spec.PluralY
+import I18n.Lemmas.CheckPluralsFinal
+import I18n.Lemmas.PluralFormsDeclText
+import I18n.Lemmas.CheckPluralsUnusual
+import I18n.Lemmas.CheckPluralsExits
 /-!
 # C07 — Plural-Forms diagnostics are truthful, and complete on the examined window
 
-About the hand-written model `CheckPlurals` of `Checker.check_plurals` (tied to the real method by the
-`check-plurals` correspondence stream) whose three expression analyses are the evaluators GENERATED
-from lib/intexpr.py; the truthfulness theorem is a corollary of C05 (`codomain_sound`) and C06
-(`period_sound`).
+About the hand-written model `CheckPlurals` of `Checker.check_plurals` / `gettext.parse_plural_forms` (tied to the real
+method by the `check-plurals` correspondence stream).  What is NOT hand-written and regenerated from /repo on every run:
+the three expression analyses (`Plural.evalAt/codomain/period`, from lib/intexpr.py), the `re._parser` tree of the header
+pattern, the registry of declarations as `lib.ling` loaded it, the window size and the `format_range` maximum
+(`Generated.PluralForms`).
+
+Reading of the statement (DESIGN §6 C07): "the field contains `nplurals=<positive integer>; plural=<valid expression>`"
+= `Spec.PluralForms.declOf v ≠ none`: the LEFTMOST match of the live header pattern (reference engine semantics
+`Spec.PluralFormsRe`: greedy, backtracking order, leftmost start) whose group 2 is accepted by the expression parser.
+
+Every theorem below is about `checkPlurals inp = .ok out` for a non-template input with one distinct Plural-Forms value
+(`headerValues inp = [pf]`; a repeated identical field is included, it adds the `duplicate-header-field` tag).
 -/
 namespace I18n.Props.C07
-open I18n I18n.Py I18n.Plural I18n.CheckPlurals
+open I18n I18n.Py I18n.Plural I18n.CheckPlurals I18n.Spec.PluralForms
 
-/-- **Header pattern pin.**  The regular expression `parse_plural_forms` searches with — dumped from the live
-    compiled pattern on every run — is the one the model's scanner was written for, with no flags. -/
+/-! ## what is pinned to the live code -/
+
+/-- **Header pattern pin.**  The `re._parser` tree of the pattern `parse_plural_forms` uses — dumped from the live compiled
+    pattern on every run, character classes canonicalised — is the tree the scanner theorems are about; it is used with
+    `search` and without flags. -/
 theorem header_regex_pin :
-    Generated.PluralGrammar.pluralFormsRegex = Spec.PluralY.pluralFormsRegex ∧
-    Generated.PluralGrammar.pluralFormsRegexFlags = 0 := by decide
+    Generated.PluralForms.headerRe = CheckPlurals.headerRe ∧
+    Generated.PluralForms.headerMethod = "search" ∧ Generated.PluralForms.headerFlags = 0 := by decide
 
-/-- what `analyse` hands to `gapRanges` -/
-def completedOf (st : WinState) (fin : WinEnd) : Option Preimage :=
-  match fin with
-  | .completed => some st.pre
-  | _ => none
+/-- **Window pin.**  `codomain_limit`, the only `range(…)` the method loops over, and `format_range`'s `max`. -/
+theorem window_constants_pin :
+    Generated.PluralForms.codomainLimit = CheckPlurals.codomainLimit ∧
+    Generated.PluralForms.rangeLoops = ["codomain_limit"] ∧
+    Generated.PluralForms.formatRangeMax = 5 := by decide
 
-/-- **Truthfulness of "never produced" claims.**  Run the 200-window as `check_plurals` does (empty
-    preimage at the start), then the gap analysis.  For every range `[a, b)` for which a
-    `f(x) != a, …, b-1` diagnostic is emitted, NO `m` in `[0, 2^32)` evaluates to a value in it. -/
+/-! ## the header scanner is the regex -/
+
+/-- **The model's scanner is `pattern.search`.**  On every string the hand-written scanner returns `None` exactly when the
+    reference engine finds no match of the live pattern, and otherwise the same text before the match, the same text
+    after it and the same two groups. -/
+theorem scanner_is_search (s : List Char) :
+    (Spec.PluralFormsRe.search Generated.PluralForms.headerRe s).map (fun f => (f.pre, f.post, f.caps)) =
+      (CheckPlurals.search [] s).map (fun y => (y.1, y.2.2.2, [(1, y.2.1), (2, y.2.2.1)])) := by
+  rw [header_regex_pin.1]
+  exact search_header s []
+
+/-- `search` of the reference engine is "leftmost start position that admits a match, the engine's preferred match there" -/
+theorem search_leftmost (r : Spec.PluralFormsRe.Re) (s : List Char) :
+    (∀ f, Spec.PluralFormsRe.search r s = some f → Spec.PluralFormsRe.IsLeftmost r s f) ∧
+    (Spec.PluralFormsRe.search r s = none ↔ ∀ p q, s = p ++ q → Spec.PluralFormsRe.runs r q = []) :=
+  ⟨fun _ h => search_isLeftmost h, searchFrom_none r s []⟩
+
+/-- **The model's reader is the reference reading** of a header value: `parse_plural_forms(v, strict=False)` succeeds
+    exactly when `v` contains a declaration and returns it (nplurals, expression, text before, text after); the `ValueError`
+    outcome of `int()` is unreachable. -/
+theorem reader_is_reference (v : List Char) :
+    parsePluralForms v = match declOf v with
+      | some d => .ok d.n d.e d.ljunk d.rjunk
+      | none => .syntaxError :=
+  parsePluralForms_eq_declOf v
+
+/-- **The reference reading, as plain text** (no regex engine involved).  `v` contains the declaration `d` iff
+    `v = ljunk ++ q` where `q` STARTS with `nplurals=<ds>;<blanks>plural=<ex>[;]` (`OccursAt`: `ds` a positive numeral without
+    leading zero, blanks are spaces and tabs, `ex` the non-empty text up to the first `;` or the end) followed by `rjunk`, no
+    occurrence of that syntax starts earlier in `v`, `n` is the decimal value of `ds`, and `ex` parses to `e`. -/
+theorem decl_is_text (v : List Char) (d : Decl) :
+    declOf v = some d ↔ ∃ q ds ex, v = d.ljunk ++ q ∧ OccursAt q ds ex d.rjunk ∧ NoneBefore v d.ljunk.length ∧
+      d.n = decimal ds ∧ PluralParse.parse ex = .ok d.e :=
+  declOf_text v d
+
+/-- … and `v` contains no declaration iff the syntax occurs nowhere in it, or the expression text of its LEFTMOST occurrence
+    does not parse (a later well-formed occurrence does not help: the reading fixed in DESIGN §6 C07). -/
+theorem no_decl_is_text (v : List Char) :
+    ¬ HasDecl v ↔ (∀ p q, v = p ++ q → ∀ ds ex rj, ¬ OccursAt q ds ex rj) ∨
+      (∃ p q ds ex rj, v = p ++ q ∧ OccursAt q ds ex rj ∧ NoneBefore v p.length ∧ ∀ e, PluralParse.parse ex ≠ .ok e) := by
+  have hd : ¬ HasDecl v ↔ declOf v = none := by
+    unfold HasDecl
+    cases declOf v <;> simp
+  exact hd.trans (declOf_none_text v)
+
+/-! ## clause 1: syntax error iff no declaration; junk -/
+
+/-- **`syntax_tag_iff`.**  A `syntax-error-in-[unused-]plural-forms` tag is emitted iff the header value contains no
+    declaration; it quotes the value (and the hint), and is then the only tag besides duplicate / inconsistent-number ones. -/
+theorem syntax_tag_iff (inp : Input) (pf : List Char) (out : Output) (hv : headerValues inp = [pf]) (ht : inp.isTemplate = false)
+    (h : checkPlurals inp = .ok out) :
+    ((∃ t ∈ out.tags, isSyntaxName t.name) ↔ ¬ HasDecl pf) ∧
+    (∀ t ∈ out.tags, isSyntaxName t.name → t = syntaxTag (hasPlurals inp) pf (hintOf inp)) ∧
+    (¬ HasDecl pf → out = ⟨tags0Of inp ++ [syntaxTag (hasPlurals inp) pf (hintOf inp)], none⟩) := by
+  have hd : ¬ HasDecl pf ↔ declOf pf = none := by
+    unfold HasDecl
+    cases declOf pf <;> simp
+  obtain ⟨h1, h2, h3⟩ := syntax_tag_iff' inp pf out hv ht h
+  exact ⟨h1.trans hd.symm, h2, fun hn => h3 (hd.1 hn)⟩
+
+/-- **`junk_tag_iff`.**  `leading-junk-in-plural-forms` (`trailing-…`) is emitted iff the value contains a declaration and
+    the text before (after) the leftmost match is not empty; the tag quotes exactly that text. -/
+theorem junk_tag_iff (inp : Input) (pf : List Char) (out : Output) (hv : headerValues inp = [pf]) (ht : inp.isTemplate = false)
+    (h : checkPlurals inp = .ok out) :
+    ((∃ t ∈ out.tags, t.name = "leading-junk-in-plural-forms") ↔ ∃ d, declOf pf = some d ∧ d.ljunk ≠ []) ∧
+    ((∃ t ∈ out.tags, t.name = "trailing-junk-in-plural-forms") ↔ ∃ d, declOf pf = some d ∧ d.rjunk ≠ []) ∧
+    (∀ t ∈ out.tags, t.name = "leading-junk-in-plural-forms" → ∃ d, declOf pf = some d ∧ t.extras = [.str d.ljunk]) ∧
+    (∀ t ∈ out.tags, t.name = "trailing-junk-in-plural-forms" → ∃ d, declOf pf = some d ∧ t.extras = [.str d.rjunk]) :=
+  junk_tag_iff' inp pf out hv ht h
+
+/-! ## clause 2: the window diagnostic; clause 3: "never produced" claims -/
+
+/-- **`window_report`** (`window_tag_iff` + `window_tag_least` + `gap_claim_true` on the whole method).  For a value that
+    contains a declaration `(n, e)` (registry declarations total on the window — true of the shipped registry,
+    `shipped_registry_clean`): the tags are `front ++ last ++ gaps` where
+    * `front` holds no arithmetic-error / codomain-error tag;
+    * `last = []` iff every `i < 200` evaluates to a value `< n`; otherwise `last` is exactly ONE tag, for the LEAST `i`
+      that fails or yields a value `≥ n`, stating its true outcome (`badMsg`: `f(i) = v >= n`, `f(i): integer overflow`,
+      `f(i): division by zero`), named codomain-error for a value and arithmetic-error for a failure;
+    * `gaps` are the `f(x) != a, …` tags: each about a non-empty range `[a, b)` NO member of which is produced by ANY
+      `m < 2^32`;
+    * a preimage is recorded only if there is neither a window diagnostic nor a gap. -/
+theorem window_report (inp : Input) (pf : List Char) (out : Output) (hv : headerValues inp = [pf]) (ht : inp.isTemplate = false)
+    (d : Decl) (hd : declOf pf = some d) (h : checkPlurals inp = .ok out) (hreg : RegistryClean inp) :
+    ∃ front last rs, out.tags = front ++ last ++ gapTags (hasPlurals inp) rs ∧
+      (∀ t ∈ front, ¬ isArithName t.name ∧ ¬ isCodomainName t.name) ∧
+      (last = [] ↔ ∀ i, i < codomainLimit → badMsg d.n d.e i = none) ∧
+      (∀ i msg, i < codomainLimit → (∀ j, j < i → badMsg d.n d.e j = none) → badMsg d.n d.e i = some msg →
+        last = [⟨badTagName d.n d.e i (hasPlurals inp), [.safe msg]⟩]) ∧
+      (∀ r ∈ rs, r.1 < r.2 ∧ ∀ k : Nat, r.1 ≤ k → k < r.2 → ∀ m : Nat, (m : Int) < 2 ^ 32 → evalAt 32 m d.e ≠ .ok (k : Int)) ∧
+      (out.preimage ≠ none → last = [] ∧ rs = []) := by
+  obtain ⟨n, e, lj, rj⟩ := d
+  exact window_report' inp pf out hv ht n e lj rj (declOf_eq_some.2 hd) h hreg
+
+/-- … in particular for every catalog whose language is unknown or one of the SHIPPED registry (no hypothesis left about the
+    registry: `shipped_registry_clean`) -/
+theorem window_report_shipped (inp : Input) (pf : List Char) (out : Output) (hv : headerValues inp = [pf]) (ht : inp.isTemplate = false)
+    (d : Decl) (hd : declOf pf = some d) (h : checkPlurals inp = .ok out) (hreg : FromRegistry inp) :
+    ∃ front last rs, out.tags = front ++ last ++ gapTags (hasPlurals inp) rs ∧
+      (∀ t ∈ front, ¬ isArithName t.name ∧ ¬ isCodomainName t.name) ∧
+      (last = [] ↔ ∀ i, i < codomainLimit → badMsg d.n d.e i = none) ∧
+      (∀ i msg, i < codomainLimit → (∀ j, j < i → badMsg d.n d.e j = none) → badMsg d.n d.e i = some msg →
+        last = [⟨badTagName d.n d.e i (hasPlurals inp), [.safe msg]⟩]) ∧
+      (∀ r ∈ rs, r.1 < r.2 ∧ ∀ k : Nat, r.1 ≤ k → k < r.2 → ∀ m : Nat, (m : Int) < 2 ^ 32 → evalAt 32 m d.e ≠ .ok (k : Int)) ∧
+      (out.preimage ≠ none → last = [] ∧ rs = []) :=
+  window_report inp pf out hv ht d hd h hreg.clean
+
+/-- what `badMsg = none` means: the index evaluates, to a valid form index -/
+theorem badMsg_none_iff (n : Nat) (e : Expr) (i : Nat) :
+    badMsg n e i = none ↔ ∃ v, evalAt 32 i e = .ok v ∧ 0 ≤ v ∧ v < n := by
+  constructor
+  · exact badMsg_none
+  · rintro ⟨v, hv, _, hvn⟩
+    simp only [badMsg, hv]
+    rw [if_neg (by omega)]
+
+/-- and what it says otherwise: the true outcome at `i` -/
+theorem badMsg_some (n : Nat) (e : Expr) (i : Nat) (msg : List Char) (h : badMsg n e i = some msg) :
+    (evalAt 32 i e = .error .Overflow ∧ msg = "f(".toList ++ natStr i ++ "): integer overflow".toList) ∨
+    (evalAt 32 i e = .error .ZeroDivision ∧ msg = "f(".toList ++ natStr i ++ "): division by zero".toList) ∨
+    (∃ v, evalAt 32 i e = .ok v ∧ v ≥ n ∧ msg = "f(".toList ++ natStr i ++ ") = ".toList ++ intStr v ++ " >= ".toList ++ natStr n) := by
+  unfold badMsg at h
+  cases hev : evalAt 32 i e with
+  | error ex =>
+    rw [hev] at h
+    rcases eval_err_cases hev with rfl | rfl
+    · left; simp only [Option.some.injEq] at h; exact ⟨rfl, h.symm⟩
+    · right; left; simp only [Option.some.injEq] at h; exact ⟨rfl, h.symm⟩
+  | ok v =>
+    rw [hev] at h
+    simp only at h
+    split at h
+    · rename_i hv
+      right; right
+      simp only [Option.some.injEq] at h
+      exact ⟨v, rfl, hv, h.symm⟩
+    · cases h
+
+/-- **Truthfulness of "never produced" claims** (window level).  Run the 200-window as `check_plurals` does (empty preimage
+    at the start), then the gap analysis.  For every range `[a, b)` for which a `f(x) != a, …, b-1` diagnostic is emitted,
+    NO `m` in `[0, 2^32)` evaluates to a value in it: corollary of C05 `codomain_sound` and C06 `period_sound`. -/
 theorem gap_claim_true (n : Nat) (e : Expr) (lc : Option (Nat × Expr)) (hp : Bool) (ut : TagCall)
     (st0 st : WinState) (fin : WinEnd) (h0 : st0.pre = [])
     (hw : window n e lc hp ut (List.range codomainLimit) st0 = (st, fin))
     (rs : List (Nat × Nat)) (hg : gapRanges n e (completedOf st fin) = .ok rs) :
-    ∀ r ∈ rs, ∀ k : Nat, r.1 ≤ k → k < r.2 → ∀ m : Nat, (m : Int) < 2 ^ 32 → evalAt 32 m e ≠ .ok (k : Int) := by
-  apply gapRanges_true n e (completedOf st fin) rs hg
-  intro pre hpre
-  cases fin with
-  | completed =>
-    simp only [completedOf, Option.some.injEq] at hpre
-    subst hpre
-    obtain ⟨hgood, hkeys, _⟩ := window_completed n e lc hp ut _ st0 st hw
-    refine ⟨?_, ?_⟩
-    · intro i hi
-      have hmem : i ∈ List.range codomainLimit := List.mem_range.2 hi
-      obtain ⟨v, hv, _, _⟩ := badMsg_none (hgood i hmem)
-      exact ⟨v, hv, (hkeys v).2 (Or.inr ⟨i, hmem, hv⟩)⟩
-    · intro k hk
-      rcases (hkeys k).1 hk with h | ⟨i, hi, hv⟩
-      · simp [keys, h0] at h
-      · obtain ⟨v, hv', hv0, _⟩ := badMsg_none (hgood i hi)
-        rw [hv] at hv'; cases hv'; exact hv0
-  | stopped => simp [completedOf] at hpre
-  | crashed ex => simp [completedOf] at hpre
+    ∀ r ∈ rs, ∀ k : Nat, r.1 ≤ k → k < r.2 → ∀ m : Nat, (m : Int) < 2 ^ 32 → evalAt 32 m e ≠ .ok (k : Int) :=
+  gapRanges_true n e (completedOf st fin) rs hg (completedOf_facts n e lc hp ut st0 st fin h0 hw)
 
-/-- **Completeness on the window.**  (With the registry's expression total on the window.)  The window
-    stops with an arithmetic-error or codomain-error diagnostic iff some `i < 200` fails or yields a value
-    `≥ nplurals` … -/
+/-- **Completeness on the window** (window level; registry expression total on the window).  The window stops with an
+    arithmetic-error or codomain-error diagnostic iff some `i < 200` fails or yields a value `≥ nplurals` … -/
 theorem window_tag_iff (n : Nat) (e : Expr) (lc : Option (Nat × Expr)) (hp : Bool) (ut : TagCall)
     (st0 st : WinState) (fin : WinEnd) (hlc : LcTotal lc (List.range codomainLimit))
     (hw : window n e lc hp ut (List.range codomainLimit) st0 = (st, fin)) :
@@ -71,62 +202,234 @@ theorem window_tag_iff (n : Nat) (e : Expr) (lc : Option (Nat × Expr)) (hp : Bo
     | completed =>
       obtain ⟨hgood, _, _⟩ := window_completed n e lc hp ut _ st0 st hw
       exact absurd (hgood i (List.mem_range.2 hi)) hbad
-    | crashed ex => exact absurd hw (window_nocrash n e lc hp ut _ st0 st ex)
+    | crashed ex => exact absurd hw (CheckPlurals.window_nocrash n e lc hp ut _ st0 st ex)
 
-/-- … and then the diagnostic is the last tag, names the LEAST such `i` and states its true outcome
-    (`f(i) = v >= n`, `integer overflow`, `division by zero`); before it at most `unusual-…` tags. -/
+/-- … and then the diagnostic is the last tag, names the LEAST such `i` and states its true outcome; before it at most
+    `unusual-…` tags. -/
 theorem window_tag_least (n : Nat) (e : Expr) (lc : Option (Nat × Expr)) (hp : Bool) (ut : TagCall)
     (st0 st : WinState) (hlc : LcTotal lc (List.range codomainLimit))
     (hw : window n e lc hp ut (List.range codomainLimit) st0 = (st, .stopped)) :
     ∃ i msg mid, i < codomainLimit ∧ (∀ j, j < i → badMsg n e j = none) ∧ badMsg n e i = some msg ∧
-      st.tags = st0.tags ++ mid ++ [⟨badTagName n e i hp, [.safe msg]⟩] ∧ (∀ t ∈ mid, t = ut) := by
-  obtain ⟨pre, i, post, msg, mid, his, hpre, hbad, htags, hmid⟩ := window_stopped n e lc hp ut _ st0 st hw hlc
-  -- `pre` is exactly `0 … i-1`
-  have hlen : pre.length = i ∧ pre = List.range i := by
-    have h1 : (List.range codomainLimit)[pre.length]? = some i := by rw [his]; simp
-    have hi : pre.length = i := by
-      have hlt : pre.length < codomainLimit := by
-        have := congrArg List.length his
-        simp at this; omega
-      rw [List.getElem?_range hlt] at h1
-      simpa using h1
-    refine ⟨hi, ?_⟩
-    have h2 := congrArg (List.take pre.length) his
-    simp only [List.take_left'] at h2
-    rw [← h2, List.take_range, hi]
-    congr 1
-    have : i < codomainLimit := by
-      have := congrArg List.length his
-      simp at this; omega
-    omega
-  refine ⟨i, msg, mid, ?_, ?_, hbad, htags, hmid⟩
-  · have := congrArg List.length his
-    simp at this; omega
-  · intro j hj
-    exact hpre j (by rw [hlen.2]; exact List.mem_range.2 hj)
+      st.tags = st0.tags ++ mid ++ [⟨badTagName n e i hp, [.safe msg]⟩] ∧ (∀ t ∈ mid, t = ut) :=
+  window_stopped_least n e lc hp ut st0 st hlc hw
+
+/-- **`format_range`.**  The text after `f(x) != ` is `", ".join(items)` where every item is the decimal of a member of the
+    (non-empty) range or the ellipsis; up to 5 members are listed in full, longer ranges as `a, a+1, a+2, ..., b-1` —
+    so every index NAMED in a gap tag is covered by `window_report`'s claim. -/
+theorem format_range_sound (a b : Nat) (hab : a < b) :
+    formatRange a b = ", ".toList.intercalate (rangeItems a b) ∧
+    (∀ it ∈ rangeItems a b, it = "...".toList ∨ ∃ k, a ≤ k ∧ k < b ∧ it = natStr k) ∧
+    (b - a ≤ 5 → rangeItems a b = (List.range (b - a)).map (fun k => natStr (k + a))) ∧
+    (5 < b - a → rangeItems a b = [natStr a, natStr (a + 1), natStr (a + 2), "...".toList, natStr (b - 1)]) :=
+  ⟨formatRange_eq a b, rangeItems_sound a b hab⟩
+
+/-! ## clause 4: nplurals against the messages -/
+
+/-- **`nplurals_tag_iff`.**  `incorrect-number-of-plural-forms` is emitted iff the value contains a declaration and its
+    nplurals differs from THE number of msgstr[] forms of the translated, non-obsolete plural messages (all of them have
+    that number: `ConsistentCount`); the tag states both numbers. -/
+theorem nplurals_tag_iff (inp : Input) (pf : List Char) (out : Output) (hv : headerValues inp = [pf]) (ht : inp.isTemplate = false)
+    (h : checkPlurals inp = .ok out) :
+    ((∃ t ∈ out.tags, t.name = "incorrect-number-of-plural-forms") ↔
+      ∃ d k, declOf pf = some d ∧ ConsistentCount inp k ∧ d.n ≠ k) ∧
+    (∀ t ∈ out.tags, t.name = "incorrect-number-of-plural-forms" →
+      ∃ d k, declOf pf = some d ∧ ConsistentCount inp k ∧ d.n ≠ k ∧
+        t.extras = [.int d.n, .safe "(Plural-Forms header field)".toList, .str "!=".toList, .int k, .safe "(number of msgstr items)".toList]) :=
+  nplurals_tag_iff' inp pf out hv ht h
+
+/-- what the scan of the catalog computes: `expected_nplurals` is the single pair `(k, _)` iff all counted messages have `k`
+    forms (and there is one); it is empty iff none is counted; `has_plurals` iff some non-obsolete message is plural -/
+theorem scan_spec (inp : Input) :
+    (expectedOf inp = [] ↔ formCounts inp.msgs = []) ∧
+    (∀ k, (∃ x, expectedOf inp = [(k, x)]) ↔ ConsistentCount inp k) ∧
+    hasPlurals inp = inp.msgs.any (fun m => !m.obsolete && m.hasPlural) := by
+  have := scanMsgs_spec inp.msgs false [] (by simp)
+  refine ⟨by simpa [expectedOf] using this.1, expected_single_iff inp, by simpa [hasPlurals] using this.2.2⟩
+
+/-- **`inconsistent_tag_iff`.**  `inconsistent-number-of-plural-forms` is emitted iff two translated, non-obsolete plural
+    messages have different numbers of msgstr[] forms — so "the (consistent) number" of `nplurals_tag_iff` exists exactly when
+    this tag is absent and some plural message is translated. -/
+theorem inconsistent_tag_iff (inp : Input) (pf : List Char) (out : Output) (hv : headerValues inp = [pf]) (ht : inp.isTemplate = false)
+    (h : checkPlurals inp = .ok out) :
+    (∃ t ∈ out.tags, t.name = "inconsistent-number-of-plural-forms") ↔
+      ∃ a ∈ formCounts inp.msgs, ∃ b ∈ formCounts inp.msgs, a ≠ b :=
+  inconsistent_tag_iff' inp pf out hv ht h
+
+/-- **The other exits of the method** (outside the scope of the statement, for completeness of the case map): several distinct
+    values ⇒ only the duplicate tag; no field ⇒ a `no-[required-]plural-forms-header-field` tag iff the catalog has plural
+    messages; a template ⇒ the value is not analysed. -/
+theorem other_exits (inp : Input) :
+    ((headerValues inp).length > 1 → checkPlurals inp = .ok ⟨[⟨"duplicate-header-field-plural-forms", []⟩], none⟩) ∧
+    (headerValues inp = [] → checkPlurals inp = .ok ⟨tags0Of inp ++
+      (if hasPlurals inp then
+        [⟨if (expectedOf inp).isEmpty then "no-plural-forms-header-field" else "no-required-plural-forms-header-field", [hintOf inp]⟩]
+       else []), none⟩) ∧
+    (∀ pf, headerValues inp = [pf] → inp.isTemplate = true → checkPlurals inp = .ok ⟨tags0Of inp, none⟩) :=
+  ⟨report_many inp, report_none inp, report_template inp⟩
+
+/-! ## clause 5: a clean declaration is silent; clause 6: the registry is never unusual -/
+
+/-- **`clean_decl_silent`.**  One Plural-Forms field whose value is exactly a declaration `(n, e)` (no junk) that is total
+    on the window, in range and onto `{0..n-1}`, `n` agreeing with the messages, the declaration being one of the registry's
+    for the language (or no language known): `check_plurals` emits NO tag and records the preimage of the window. -/
+theorem clean_decl_silent (inp : Input) (pf : List Char) (hpfs : inp.pluralForms = [pf]) (ht : inp.isTemplate = false)
+    (n : Nat) (e : Expr) (hd : declOf pf = some ⟨n, e, [], []⟩) (hclean : CleanOnWindow n e)
+    (hcount : ∀ j ∈ formCounts inp.msgs, j = n) (hparses : RegistryParses inp)
+    (hreg : inp.correct = none ∨ ∃ cs c lj' rj', inp.correct = some cs ∧ c ∈ cs ∧ parsePluralFormsStrict c = .ok n e lj' rj') :
+    ∃ pre, checkPlurals inp = .ok ⟨[], some pre⟩ ∧ ∀ k, k ∈ keys pre ↔ ∃ i : Nat, i < codomainLimit ∧ evalAt 32 i e = .ok k :=
+  clean_decl_silent' inp pf hpfs ht n e (declOf_eq_some.2 hd) hclean hcount hparses hreg
+
+/-- **`clean_decl_no_own_diagnostic`.**  Without the agreement hypotheses: a declaration that is total on the window, in range
+    and onto draws no diagnostic about ITSELF — every tag is junk around it, or a comparison with the catalog / the
+    registry (duplicate field, inconsistent / incorrect number of forms, unusual) — and the preimage is recorded. -/
+theorem clean_decl_no_own_diagnostic (inp : Input) (pf : List Char) (out : Output) (hv : headerValues inp = [pf])
+    (ht : inp.isTemplate = false) (d : Decl) (hd : declOf pf = some d) (h : checkPlurals inp = .ok out)
+    (hclean : CleanOnWindow d.n d.e) (hreg : RegistryClean inp) :
+    (∀ t ∈ out.tags, isComparisonName t.name ∨ t = ⟨"leading-junk-in-plural-forms", [.str d.ljunk]⟩ ∨
+        t = ⟨"trailing-junk-in-plural-forms", [.str d.rjunk]⟩) ∧
+    ∃ pre, out.preimage = some pre ∧ ∀ k, k ∈ keys pre ↔ ∃ i : Nat, i < codomainLimit ∧ evalAt 32 i d.e = .ok k := by
+  obtain ⟨n, e, lj, rj⟩ := d
+  exact clean_decl_names' inp pf out hv ht n e lj rj (declOf_eq_some.2 hd) h hclean hreg
+
+/-- **`registry_never_unusual`** (general lemma).  If the declared `(n, e)` is what one of the registry's strings for the
+    language parses to (or no language is known), no `unusual-[unused-]plural-forms` tag is emitted — whatever else is wrong. -/
+theorem registry_never_unusual (inp : Input) (pf : List Char) (out : Output) (hv : headerValues inp = [pf]) (ht : inp.isTemplate = false)
+    (d : Decl) (hd : declOf pf = some d) (h : checkPlurals inp = .ok out)
+    (hreg : inp.correct = none ∨ ∃ cs c lj' rj', inp.correct = some cs ∧ c ∈ cs ∧ parsePluralFormsStrict c = .ok d.n d.e lj' rj') :
+    ∀ t ∈ out.tags, ¬ isUnusualName t.name := by
+  obtain ⟨n, e, lj, rj⟩ := d
+  exact never_unusual' inp pf out hv ht n e lj rj (declOf_eq_some.2 hd) h hreg
+
+/-- … in particular the registry's own string for the language, used as the header value, is never called unusual. -/
+theorem registry_string_never_unusual (inp : Input) (pf : List Char) (out : Output) (hv : headerValues inp = [pf])
+    (ht : inp.isTemplate = false) (cs : List (List Char)) (hcs : inp.correct = some cs) (hmem : pf ∈ cs)
+    (hparse : ∃ n e, parsePluralFormsStrict pf = .ok n e [] []) (h : checkPlurals inp = .ok out) :
+    ∀ t ∈ out.tags, ¬ isUnusualName t.name := by
+  obtain ⟨n, e, hs⟩ := hparse
+  exact never_unusual' inp pf out hv ht n e [] [] (strict_ok hs).1 h (Or.inr ⟨cs, pf, [], [], hcs, hmem, hs⟩)
+
+/-- **`unusual_tag_iff`** (both directions; registry declarations total on the window).  `unusual-[unused-]plural-forms` is emitted iff
+    the language is known and either NO declaration of its registry has the declared nplurals (`registryDecls`: the strict
+    readings of the registry strings with that nplurals), or EXACTLY ONE has and the declared expression differs from it at
+    some `i < 200` that the window reaches (every `j ≤ i` evaluates to a valid form index).  The tag quotes the value and the
+    hint.  (With two or more registry declarations of one nplurals nothing is compared; no language of the shipped registry
+    is like that: `shipped_registry_clean`.) -/
+theorem unusual_tag_iff (inp : Input) (pf : List Char) (out : Output) (hv : headerValues inp = [pf]) (ht : inp.isTemplate = false)
+    (d : Decl) (hd : declOf pf = some d) (h : checkPlurals inp = .ok out) (hreg : RegistryClean inp) :
+    ((∃ t ∈ out.tags, isUnusualName t.name) ↔
+      ∃ cs, inp.correct = some cs ∧ (registryDecls cs d.n = [] ∨
+        ∃ le, registryDecls cs d.n = [(d.n, le)] ∧
+          ∃ i, i < codomainLimit ∧ (∀ j, j ≤ i → badMsg d.n d.e j = none) ∧ evalAt 32 i d.e ≠ evalAt 32 i le)) ∧
+    (∀ t ∈ out.tags, isUnusualName t.name → t = unusualTag (hasPlurals inp) pf (hintOf inp)) := by
+  obtain ⟨n, e, lj, rj⟩ := d
+  have := unusual_tag_iff' inp pf out hv ht n e lj rj (declOf_eq_some.2 hd) h hreg
+  simp only [differsOn_range] at this
+  exact this
+
+/-- **The shipped registry** (kernel evaluation over the dump of data/languages as loaded): every one of its declarations
+    parses strictly, is total on the window, in range and onto; its indices are valid; and no language has two declarations
+    with the same nplurals. -/
+theorem shipped_registry_clean :
+    (∀ c ∈ Generated.PluralForms.registryStrings, ∃ n e, parsePluralFormsStrict c = .ok n e [] [] ∧ CleanOnWindow n e) ∧
+    (∀ en ∈ Generated.PluralForms.registry, ∀ i ∈ en.2, i < Generated.PluralForms.registryStrings.length) ∧
+    (∀ en ∈ Generated.PluralForms.registry, ((entryStrings en.2).map npluralsOf).Nodup) := by
+  refine ⟨registry_string_clean, ?_, ?_⟩
+  · intro en hen i hi
+    have := List.all_eq_true.1 registry_indices_valid en hen
+    simpa using List.all_eq_true.1 this i hi
+  · intro en hen
+    simpa using List.all_eq_true.1 registry_nplurals_distinct en hen
+
+/-- **A registry declaration used as the header is silent**: for a language of the shipped registry, a catalog whose single
+    Plural-Forms value is one of the language's registry strings and whose translated plural messages have that many forms
+    gets no Plural-Forms tag at all. -/
+theorem registry_declaration_silent (inp : Input) (pf : List Char) (hpfs : inp.pluralForms = [pf]) (ht : inp.isTemplate = false)
+    (en : String × List Nat) (hen : en ∈ Generated.PluralForms.registry) (hcs : inp.correct = some (entryStrings en.2))
+    (hmem : pf ∈ entryStrings en.2) (hcount : ∀ j ∈ formCounts inp.msgs, j = npluralsOf pf) :
+    ∃ pre, checkPlurals inp = .ok ⟨[], some pre⟩ := by
+  obtain ⟨n, e, hs, hclean⟩ := registry_string_clean pf (mem_entryStrings hmem)
+  have hn : npluralsOf pf = n := by simp [npluralsOf, hs]
+  have hfrom : FromRegistry inp := Or.inr ⟨en, hen, hcs⟩
+  obtain ⟨pre, hpre, _⟩ := clean_decl_silent' inp pf hpfs ht n e (strict_ok hs).1 hclean (by rw [← hn]; exact hcount)
+    hfrom.clean.parses (Or.inr ⟨_, pf, [], [], hcs, hmem, hs⟩)
+  exact ⟨pre, hpre⟩
+
+/-! ## no exception escapes -/
 
 /-- The window itself never lets an exception escape. -/
 theorem window_nocrash (n : Nat) (e : Expr) (lc : Option (Nat × Expr)) (hp : Bool) (ut : TagCall)
     (is : List Nat) (st st' : WinState) (ex : Exc) : window n e lc hp ut is st ≠ (st', .crashed ex) :=
   CheckPlurals.window_nocrash n e lc hp ut is st st' ex
 
-/-- The gap analysis never raises (the `UnboundLocalError` of the pinned tree for expressions without a
-    codomain, e.g. `plural=n/0`, was repaired in /repo by a `fix:` commit; before it this was refuted by
-    `gapRanges 3 (n/0) none = error UnboundLocal`). -/
+/-- The gap analysis never raises (the `UnboundLocalError` of the pinned tree for expressions without a codomain, e.g.
+    `plural=n/0`, was repaired in /repo by `fix:` 058f490). -/
 theorem gap_nocrash (n : Nat) (e : Expr) (completed : Option Preimage) : ∃ rs, gapRanges n e completed = .ok rs :=
   gapRanges_nocrash n e completed
 
-/-! Non-vacuity -/
+/-- **`checkPlurals_nocrash`.**  The whole method returns normally — for EVERY list of Plural-Forms values, every message
+    list, template or not — whenever the language is unknown or one of the shipped registry: the `except` arms
+    (`PluralFormsSyntaxError`, `OverflowError`, `ZeroDivisionError`) catch everything the body can raise.  (The model's two
+    other exits — `ValueError` from `int()`, unreachable since `fix:` 871d4d7, and a registry string that does not parse —
+    are excluded by `parse_ne_valueError` and `shipped_registry_clean`.) -/
+theorem checkPlurals_nocrash (inp : Input) (hreg : FromRegistry inp) : ∃ out, checkPlurals inp = .ok out := by
+  cases h : checkPlurals inp with
+  | ok out => exact ⟨out, rfl⟩
+  | error ex => exact absurd h (CheckPlurals.checkPlurals_nocrash inp hreg.clean.parses ex)
 
+/-- … and for any registry whatsoever, as long as its strings parse (data integrity of the tool, not of the checked file) -/
+theorem checkPlurals_nocrash_of_parses (inp : Input) (hreg : RegistryParses inp) (ex : Exc) : checkPlurals inp ≠ .error ex :=
+  CheckPlurals.checkPlurals_nocrash inp hreg ex
+
+/-! ## Non-vacuity -/
+
+section examples
+
+/-- the plain-text syntax: an occurrence at the head of a string -/
+example : OccursAt "nplurals=2; plural=n>1; y".toList "2".toList "n>1".toList " y".toList :=
+  (matchHere_iff _ _ _ _).1 (by decide +kernel)
+/-- the reference reading: leftmost match, groups, junk -/
+example : (declOf "x nplurals=2; plural=n>1; y".toList).map (fun d => (d.n, d.ljunk, d.rjunk)) = some (2, "x ".toList, " y".toList) := by rfl
+/-- leftmost: the first occurrence is broken (`(` does not parse) and the second is fine — no declaration -/
+example : (declOf "nplurals=2; plural=(; nplurals=1; plural=0;".toList).isNone = true := by rfl
+/-- not a positive integer -/
+example : (declOf "nplurals=0; plural=0;".toList).isNone = true := by rfl
+/-- greedy `[^;]+` then optional `;`: the rest after the match starts after the first `;` -/
+example : (declOf "nplurals=1; plural=0;;".toList).map (·.rjunk) = some ";".toList := by rfl
+
+/-- syntax error: exactly that tag -/
+example : names (checkPlurals ⟨["nplurals=2; plural=n+;".toList], none, [], [], false⟩) = ["syntax-error-in-unused-plural-forms"] := by decide +kernel
+/-- junk on both sides is quoted -/
+example : extrasOf (checkPlurals ⟨["x nplurals=1; plural=0; y".toList], none, [], [], false⟩) =
+    [[.str "x ".toList], [.str " y".toList]] := by decide +kernel
+/-- nplurals 2 against messages with 3 forms -/
+example : names (checkPlurals ⟨[en], none, [], [plMsg 3], false⟩) = ["incorrect-number-of-plural-forms"] := by decide +kernel
+example : ConsistentCount ⟨[en], none, [], [plMsg 3, plMsg 3], false⟩ 3 := ⟨by decide, by decide⟩
+/-- two translated plural messages with different numbers of forms -/
+example : names (checkPlurals ⟨[en], none, [], [plMsg 2, plMsg 3], false⟩) = ["inconsistent-number-of-plural-forms"] := by decide +kernel
+/-- no field, plural messages translated -/
+example : names (checkPlurals ⟨[], none, [], [plMsg 2], false⟩) = ["no-required-plural-forms-header-field"] := by decide +kernel
+/-- the registry's declaration with agreeing messages: silent (hypotheses of `clean_decl_silent` hold) -/
+example : names (checkPlurals ⟨[en], some [en], [en], [plMsg 2], false⟩) = [] := by decide +kernel
+example : CleanOnWindow 2 (.compare .name .noteq (.num 1)) := cleanOnWindowB_sound (by decide +kernel)
+/-- the registry's declarations of a language with a given nplurals -/
+example : (registryDecls [en] 2).length = 1 ∧ (registryDecls [en] 3).length = 0 := by decide +kernel
+/-- a clean but different declaration IS unusual (so `registry_never_unusual` is not vacuous) -/
+example : names (checkPlurals ⟨["nplurals=2; plural=n>1;".toList], some [en], [en], [plMsg 2], false⟩) = ["unusual-plural-forms"] := by decide +kernel
+/-- the least bad index and its true outcome -/
+example : extrasOf (checkPlurals ⟨["nplurals=2; plural=n%3;".toList], none, [], [plMsg 2], false⟩) = [[.safe "f(2) = 2 >= 2".toList]] := by decide +kernel
+example : badMsg 2 (.binop .name .mod (.num 3)) 2 = some "f(2) = 2 >= 2".toList := by rfl
+/-- total and in range on the window, yet index 1 is never produced: the gap analysis says so -/
+example : extrasOf (checkPlurals ⟨["nplurals=3; plural=n%2*2;".toList], none, [], [], false⟩) = [[.safe "f(x) != 1".toList]] := by decide +kernel
+/-- `plural=n/0`: division by zero at 0, no codomain, nothing else claimed, no crash -/
+example : extrasOf (checkPlurals ⟨["nplurals=3; plural=n/0;".toList], none, [], [], false⟩) = [[.safe "f(0): division by zero".toList]] := by decide +kernel
+example : gapRanges 3 (.binop .name .div (.num 0)) none = .ok [] := by rfl
+/-- `format_range` abbreviates from six members on -/
+example : formatRange 0 10 = "0, 1, 2, ..., 9".toList := by decide +kernel
+example : formatRange 2 7 = "2, 3, 4, 5, 6".toList := by decide +kernel
+/-- the shipped registry is not empty, and its first language's declaration is what `FromRegistry` talks about -/
+example : Generated.PluralForms.registry.length = 78 ∧ Generated.PluralForms.registryStrings.length = 10 := by decide
 /-- `nplurals=2; plural=n>1` on the window: completed, nothing to report -/
 example : (window 2 (.compare .name .gt (.num 1)) none true ⟨"u", []⟩ (List.range codomainLimit) ⟨[], [], false⟩).2 = .completed := by rfl
-/-- `nplurals=2; plural=n%3`: stops at the least bad index 2 -/
-example : badMsg 2 (.binop .name .mod (.num 3)) 2 = some "f(2) = 2 >= 2".toList := by rfl
-/-- `nplurals=3; plural=n%2*2`: total and in range on the window, yet index 1 is never produced: the gap analysis says so -/
-example : gapRanges 3 (.binop (.binop .name .mod (.num 2)) .mult (.num 2))
-    (some [(0, [0]), (2, [1])]) = .ok [(1, 2)] := by rfl
-
-/-- `plural=n/0`: no codomain, nothing claimed, no crash -/
-example : gapRanges 3 (.binop .name .div (.num 0)) none = .ok [] := by rfl
+end examples
 
 end I18n.Props.C07
